@@ -7,6 +7,7 @@ import CallbagModel.Inv.FromIter
 import CallbagModel.Inv.Merge
 import CallbagModel.Inv.Relay
 import CallbagModel.Inv.Share
+import CallbagModel.Inv.ShareWeak
 import CallbagModel.Inv.Take
 /-!
 # C02 — termination is final: property theorems (statements only; the invariants are in `Inv/`)
